@@ -30,6 +30,9 @@ class FakeS3:
 
     async def handle(self, request):
         act = self.plan(request) if getattr(self, 'plan', None) else None
+        if act is not None and act[0] == 'cutreal':
+            body = await request.aread()
+            return await cut_real(self, request, self._respond(request, body), act[1])
         if act is not None:
             return await apply_fault(self, request, act)
         body = await request.aread() if hasattr(request, 'aread') else request.read()
@@ -51,10 +54,11 @@ class FakeS3:
                 raise r
             if r is not None:
                 return r
+        if 'content-length' in headers and int(headers['content-length']) != len(body):
+            # what the real HTTP stack does: the CLIENT side (h11) refuses to finish a message whose body does not have the declared length
+            raise httpx.LocalProtocolError('Too %s data for declared Content-Length' % ('little' if len(body) < int(headers['content-length']) else 'much'), request=request)
         if self.verify_signatures and (not verdict['sigOk'] or verdict.get('declaredHash') not in (verdict.get('bodyHash'), 'UNSIGNED-PAYLOAD')):
             return httpx.Response(403, content=b'<Error><Code>SignatureDoesNotMatch</Code></Error>')
-        if 'content-length' in headers and int(headers['content-length']) != len(body):
-            return httpx.Response(400, content=b'<Error><Code>IncompleteBody</Code></Error>')
         path, _, query = target.partition(b'?')
         path = sigv4.pct_decode(path).decode('utf-8', 'surrogateescape')
         q = {sigv4.pct_decode(k).decode(): sigv4.pct_decode(v).decode('utf-8', 'surrogateescape') for k, v in sigv4.split_query(query)}
@@ -124,6 +128,19 @@ def transport_error(fake, kinds, what, request):
     fake.drops = getattr(fake, 'drops', 0) + 1
     cls = getattr(httpx, kinds[(fake.drops + getattr(fake, 'drop_phase', 0)) % len(kinds)])
     return cls('%s (%s, fault script)' % (what, cls.__name__), request=request)
+
+
+async def cut_real(fake, request, resp, quarter):
+    """the GENUINE response of the service, cut after quarter/4 of its body by a transport error (a listing page that breaks in mid-body)"""
+    full = resp.content
+    upto = max(1, len(full) * quarter // 4)
+
+    async def body():
+        # delivered in pieces like a socket would, so that a consumer that parses incrementally has seen complete parts before the break
+        for i in range(0, upto, 65536):
+            yield full[i:min(i + 65536, upto)]
+        raise transport_error(fake, CUT_KINDS, 'response cut', request)
+    return httpx.Response(resp.status_code, headers={'content-length': str(len(full)), 'content-type': resp.headers.get('content-type', 'application/xml')}, content=body())
 
 
 async def apply_fault(fake, request, act):
